@@ -279,6 +279,11 @@ LEDGER_STATEMENTS = [
     ('SELECT type, count(*) AS n FROM #entries GROUP BY type ORDER BY type', None),
     ('SELECT date, account, balance FROM year >= %s AND year <= %s', [2019, 2020]),
     ('SELECT account, balance FROM OPEN ON 2020-01-01 WHERE account ~ "Assets"', None),
+    ('SELECT DISTINCT open_date(parent(account)) AS o, close_date(root(account, 1)) AS c, open_meta(leaf(account), "note") AS m ORDER BY 1, 2', None),
+    ('SELECT open_date(%s) AS o, close_date(%s) AS c, currency_meta(%s, "name") AS n LIMIT 1', ['Assets:Nope', 'Income', 'NOPE']),
+    ('SELECT account FROM #accounts ORDER BY account', None),
+    ('SELECT count(*) AS n, count(open) AS o, count(close) AS c FROM #accounts', None),
+    ('SELECT name FROM #commodities ORDER BY name', None),
 ]
 
 
